@@ -5,6 +5,7 @@ reach it from the stated basin is explored by this recovery sweep."""
 import math
 import warnings
 
+import random
 import sys
 
 import numpy as np
@@ -60,9 +61,19 @@ def one_case(rng, i, tier):
         rx = [-1.6e-6, float(cp + rng.uniform(1.0e-6, 2.5e-6))]
         if rng.random() < 0.3:
             rx = rx[::-1]
+    # the interval given relative to the contact point (fitted in several
+    # passes), a fifth of the cases: whole segment (0, 0) or an interval
+    # holding the baseline and most of the indentation
+    r2 = random.Random(7919 * (i + 1))
+    rtype = "absolute"
+    if r2.random() < 0.2 and method != "nelder":
+        rtype = "relative cp"
+        rx = [0, 0]
+        if r2.random() < 0.5:
+            rx = [-(1.1e-6 + r2.random() * 1e-6), r2.uniform(1.0e-6, 2.5e-6)]
     return dict(model=mk, true=true, n_app=int(n_app), jitter=jitter,
                 segment=segment, method=method, weight_cp=weight,
-                noise_rel=noise_rel, seed=i, range_x=rx)
+                noise_rel=noise_rel, seed=i, range_x=rx, range_type=rtype)
 
 
 def run_case(cfg, rng):
@@ -99,7 +110,8 @@ def run_case(cfg, rng):
     p["baseline"].set(value=bl_true + rng.uniform(-1, 1) * BASIN["bl"] * fmax)
     kw = dict(model_key=mk, params_initial=p, segment=cfg["segment"],
               method=cfg["method"], weight_cp=cfg["weight_cp"],
-              range_x=list(cfg.get("range_x", [0, 0])))
+              range_x=list(cfg.get("range_x", [0, 0])),
+              range_type=cfg.get("range_type", "absolute"))
     if cfg["method"] == "nelder":
         kw["method_kws"] = {"max_nfev": 20000, "tol": 1e-14}
     elif cfg["method"] == "least_squares":
